@@ -30,6 +30,10 @@ def generate(rng, tier):
         yield gen_coro.gen_lifecycle(rng, tier)
     for _ in range(n // 3):
         yield gen_coro.gen_same_wait(rng, tier)
+    for _ in range(n // 3):
+        yield gen_coro.gen_raise(rng, tier)
+    for _ in range(n // 6):
+        yield gen_coro.gen_self_kill(rng, tier)
     if tier == 'quick':
         # small-scope exhaustive: every history of <= 4 operations over 6 operations, 2 generators
         yield from gen_coro.enum_lifecycle(4, families=(0, 1, 2))
